@@ -596,6 +596,9 @@ def create(cx, case, r, A):
     try:
         c = A.new_cells("foo", formula=ref)
     except Exception as e:      # noqa
+        if r.get("second_on_line") and isinstance(e, ValueError):
+            cx.cnt["refused_second_lambda_on_line"] = cx.cnt.get("refused_second_lambda_on_line", 0) + 1
+            return None         # refused: fine (taking the neighbour instead would not be)
         cx.V("create-raised", "creating the cells raised %s" % type(e).__name__, text=cx.given, msg=str(e)[:300])
         return None
     return c, ref, name, ("exact", None)
